@@ -115,6 +115,41 @@ def detect(mid, tier="quick"):
         shutil.rmtree(vc, ignore_errors=True)
 
 
+HARMLESS = os.path.join(ROOT, "harmless")
+
+
+def harmless(src):
+    """a semantics-preserving rewrite: the property's check must stay quiet (exit 0); what it does instead is recorded"""
+    mid = os.path.basename(src.rstrip("/"))
+    meta = json.load(open(os.path.join(src, "meta.json"))) if os.path.exists(os.path.join(src, "meta.json")) else {}
+    prop = re.match(r"C\d+", mid).group(0)
+    vc = tempfile.mkdtemp(prefix="vcopy-", dir="/tmp")
+    try:
+        sh(["rsync", "-a", "--exclude", ".git", ROOT + "/", vc + "/"])
+        with Worktree() as wt:
+            rc_a, out_a = sh(["git", "-C", wt, "apply", os.path.join(src, "patch.diff")])
+            if rc_a != 0:
+                return mid, None, "patch does not apply"
+            env = dict(os.environ, VERIF_REPO=wt)
+            try:
+                rc, out = sh(["./check", prop, "quick"], cwd=vc, env=env, timeout=3600)
+            except subprocess.TimeoutExpired:
+                rc, out = 124, "timeout"
+        stages = sorted(set(re.findall(r"broken ([TPC]):", out)))
+        viol = re.search(r"VIOLATION property=\S+ replay=\S+( no-failing-input-found)?", out)
+        broken = re.findall(r"broken [TPC]: (.*)", out)
+        meta["check_result"] = {"cmd": f"VERIF_REPO=<worktree with the rewrite> ./check {prop} quick  (scratch copy of /verif)", "exit": rc,
+                                "violation_line": viol.group(0) if viol else None, "broken_stages": stages, "broken": [b[:300] for b in broken[:4]],
+                                "quiet": rc == 0}
+        dst = os.path.join(HARMLESS, mid)
+        os.makedirs(dst, exist_ok=True)
+        shutil.copy(os.path.join(src, "patch.diff"), os.path.join(dst, "patch.diff"))
+        json.dump(meta, open(os.path.join(dst, "meta.json"), "w"), indent=1)
+        return mid, rc == 0, f"exit={rc} stages={stages} {'(no-failing-input-found)' if viol and viol.group(1) else ''}"
+    finally:
+        shutil.rmtree(vc, ignore_errors=True)
+
+
 def main(argv):
     global TAG
     if "--tag" in argv:
@@ -126,6 +161,12 @@ def main(argv):
                 p = os.path.join(d, sub)
                 if os.path.isdir(p) and os.path.exists(os.path.join(p, "patch.diff")):
                     print("confirm", *confirm(p), flush=True)
+    elif argv[0] == "harmless":
+        for d in argv[1:]:
+            for sub in sorted(os.listdir(d)):
+                p = os.path.join(d, sub)
+                if os.path.isdir(p) and os.path.exists(os.path.join(p, "patch.diff")):
+                    print("harmless", *harmless(p), flush=True)
     elif argv[0] == "detect":
         tier = "quick"
         ids = [a for a in argv[1:] if not a.startswith("--")]
